@@ -139,6 +139,14 @@ def run(prog, env, stack=None, max_steps=2000, max_paths=256, feas_ms=2000, alia
                         raise Halt("dynjump", w, None)
                     i = t
                 else:
+                    oog = Mx.mem_out_of_gas(name, args)
+                    if oog is not None:
+                        bad = w.assume(oog)
+                        if feasible(bad.pc, feas_ms):
+                            outs.append(Outcome("invalid", bad, None, stack=list(stack)))
+                        w = w.assume(z3.Not(oog))
+                        if not feasible(w.pc, feas_ms):
+                            break
                     v, w = exec_op(name, args, w)
                     if isinstance(v, tuple) and v[0] == "guard":
                         bad = w.assume(v[1])
